@@ -225,6 +225,30 @@ func c05Forgeries(s gen.Signed, emit func(class, detail string, b []byte)) {
 		f.Sig = nil
 		f.Sig = sign(gen.Key(s.Signer.Type, 669), refmodel.StoreMeta, f.Bytes())
 		emit("signed-by-other-key", "", f.Bytes())
+		if v.Offline != nil && (v.Offline.TransType == 7 || v.Offline.TransType == 11) {
+			f = v
+			o := *v.Offline
+			o.TransType = 18 - o.TransType
+			f.Offline = &o
+			emit("offline-type-rewritten", "", f.Bytes())
+		}
+		if v.Dest.SigType == 7 && v.Offline == nil {
+			f = v
+			f.Dest.Signing = attacker.Pub
+			emit("identity-key-swapped", "", f.Bytes())
+		}
+		{
+			o := refmodel.Offline{Expires: gen.OfflineExp, TransType: 7, TransKey: attackerT.Pub}
+			o.Sig = refmodel.Sign(otherID, o.SignedData())
+			if len(o.Sig) == refmodel.SigTable[v.Dest.SigType].SigLen {
+				f = v
+				f.Flags |= 1
+				f.Offline = &o
+				f.Sig = nil
+				f.Sig = sign(attackerT, refmodel.StoreMeta, f.Bytes())
+				emit("offline-transplanted(from-another-identity)", "", f.Bytes())
+			}
+		}
 	case refmodel.EncryptedLeaseSet:
 		f := v
 		f.Flags |= 1
@@ -251,6 +275,18 @@ func c05Forgeries(s gen.Signed, emit func(class, detail string, b []byte)) {
 		f.Sig = nil
 		f.Sig = sign(gen.Key(s.Signer.Type, 669), refmodel.StoreELS, f.Bytes())
 		emit("signed-by-other-key", "", f.Bytes())
+		if v.Offline != nil && (v.Offline.TransType == 7 || v.Offline.TransType == 11) {
+			f = v
+			o := *v.Offline
+			o.TransType = 18 - o.TransType
+			f.Offline = &o
+			emit("offline-type-rewritten", "", f.Bytes())
+		}
+		if (v.SigType == 7 || v.SigType == 11) && v.Offline == nil {
+			f = v
+			f.Blinded = attacker.Pub
+			emit("identity-key-swapped", "", f.Bytes())
+		}
 	case refmodel.RouterInfo:
 		f := v
 		f.Sig = nil
